@@ -303,4 +303,16 @@ def assignedDefault (_aDef bDef : Nat) : Nat := bDef
 future it took over from `b` -/
 def assignedDefaultAsIs (aDef _bDef : Nat) : Nat := aDef
 
+/-- the agent that ends the promise's life when another (empty) promise of the same class is move-assigned *over* it while
+it still owns the future: the replaced promise ends as if it was destroyed — `~promise` semantics (no-value) for a plain
+promise, the default value for a `promise_with_default` / `_v` / `_vp` (`pwd = some v`) -/
+def assignOverKind (pwd : Option Nat) : Kind :=
+  match pwd with
+  | some v => Kind.ddef v
+  | none => Kind.dtor
+
+/-- as the pinned code had it: all three `promise_with_default*` assignment operators went straight to
+`promise<T>::operator=`, which does `set_value(drop)` — the future of the replaced promise lost its default -/
+def assignOverKindAsIs (_pwd : Option Nat) : Kind := Kind.dtor
+
 end Cocls.Chain
